@@ -881,3 +881,104 @@ Proof. exact unmarshal_no_fuel. Qed.
 Print Assumptions C08_tparams_never_out_of_fuel.
 
 (* ==== end tickets and tokens ==== *)
+
+(* ==== payload (round 4) ==== *)
+(** Whole packet payloads: the frame loop of connection.handleFrames over the frame parser
+    (model Wire/Payload.v, replayed against the real Conn.handleFrames of real client / server
+    connection objects with and without a tracer: unit payload).  Handling a frame is outside the
+    codec property: whether the handler of the i-th parsed frame fails is an oracle. *)
+From V Require Import Wire.Payload Wire.PayloadProofs.
+
+(** Every list of well-formed, self-delimiting frames that are known to the parser and allowed at the
+    level, with any amount of PADDING in front of each frame and behind the last one, parses back to
+    the list of the normalised frames ... *)
+Theorem C08_payload_roundtrip : forall c lvl items trail fuel,
+  Forall (item_ok c lvl) items ->
+  (length (encode_payload items ++ repeat 0%Z trail) <= fuel)%nat ->
+  parse_payload fuel c lvl (encode_payload items ++ repeat 0%Z trail) = Ok (map (fun it => norm c lvl (snd it)) items).
+Proof. exact payload_roundtrip. Qed.
+Print Assumptions C08_payload_roundtrip.
+
+(** ... and the last frame may be one without a length field (STREAM / DATAGRAM to the end of the packet). *)
+Theorem C08_payload_roundtrip_last : forall c lvl items k f enc fuel,
+  Forall (item_ok c lvl) items ->
+  wf_frame f -> append_frame f = Some enc ->
+  type_valid c (frame_type f) = true -> type_allowed lvl (frame_type f) = true ->
+  (length (encode_payload items ++ repeat 0%Z k ++ enc) <= fuel)%nat ->
+  parse_payload fuel c lvl (encode_payload items ++ repeat 0%Z k ++ enc)
+  = Ok (map (fun it => norm c lvl (snd it)) items ++ [norm c lvl f]).
+Proof. exact payload_roundtrip_last. Qed.
+Print Assumptions C08_payload_roundtrip_last.
+
+Theorem C08_payload_never_out_of_fuel : forall fuel c lvl b e n,
+  (length b <= fuel)%nat -> parse_payload fuel c lvl b = Err e n -> e <> 98.
+Proof. exact parse_payload_no_fuel. Qed.
+Print Assumptions C08_payload_never_out_of_fuel.
+
+(** handleFrames on a payload that parses: the outcome is the loop over the parsed frames ... *)
+Theorem C08_handle_frames_parsed : forall c lvl log fails b fs,
+  parse_payload (length b) c lvl b = Ok fs ->
+  handle_frames c lvl log fails b = run_list log fails 0 fs false false false false 0.
+Proof. exact handle_frames_parsed. Qed.
+Print Assumptions C08_handle_frames_parsed.
+
+(** ... no handler fails: accepted, isAckEliciting / isNonProbing are the disjunctions over the
+    frames, and the tracer (if any) is given every frame *)
+Theorem C08_handle_frames_ok : forall log fails fs i ae np count,
+  no_failure fails i (length fs) ->
+  run_list log fails i fs ae np false false count =
+  HOk (ae || existsb ack_eliciting fs) (np || existsb (fun f => negb (probing f)) fs)
+      (if log then count + zlen fs else -1).
+Proof. exact run_list_ok. Qed.
+Print Assumptions C08_handle_frames_ok.
+
+(** ... the first handler failure decides: its error is returned; with a tracer all frames are still
+    given to the tracer (none of the later ones is handled), without one the callback is never called *)
+Theorem C08_handle_frames_first_failure : forall log fails fs i j ae np count,
+  (i <= j < i + length fs)%nat -> fails j = true -> no_failure fails i (j - i) ->
+  run_list log fails i fs ae np false false count = HHandleErr (if log then count + zlen fs else -1).
+Proof. exact run_list_first_failure. Qed.
+Print Assumptions C08_handle_frames_first_failure.
+
+(** Without a tracer nothing behind the frame whose handler failed is looked at (any bytes x) ... *)
+Theorem C08_handle_frames_no_tracer_stops : forall c lvl fails items x,
+  Forall (item_ok c lvl) items -> items <> [] ->
+  fails (length items - 1)%nat = true -> no_failure fails 0 (length items - 1) ->
+  handle_frames c lvl false fails (encode_payload items ++ x) = HHandleErr (-1).
+Proof. exact handle_frames_no_tracer_stops. Qed.
+Print Assumptions C08_handle_frames_no_tracer_stops.
+
+(** ... whereas with a tracer a parse error anywhere in the payload is what handleFrames returns,
+    whatever the handlers did before (the attached tracer changes which error closes the connection). *)
+Theorem C08_handle_frames_tracer_parse_error : forall c lvl fails b e n,
+  parse_payload (length b) c lvl b = Err e n -> handle_frames c lvl true fails b = HParseErr e.
+Proof. exact handle_frames_tracer_parse_error. Qed.
+Print Assumptions C08_handle_frames_tracer_parse_error.
+
+Example C08_tracer_changes_the_error :
+  let c := Cfg false false false 0 in
+  let b := [1; 30; 33] in
+  handle_frames c 4 false (fun i => Nat.eqb i 1) b = HHandleErr (-1) /\
+  handle_frames c 4 true (fun i => Nat.eqb i 1) b = HParseErr 4.
+Proof. exact tracer_changes_the_error. Qed.
+Print Assumptions C08_tracer_changes_the_error.
+
+Example C08_payload_nonvacuous :
+  let c := Cfg false false false 0 in
+  Forall (item_ok c 4) [(2%nat, FPing); (0%nat, FMaxData 70000); (1%nat, FStream 0 0 [104; 105] false true)] /\
+  encode_payload [(2%nat, FPing); (0%nat, FMaxData 70000); (1%nat, FStream 0 0 [104; 105] false true)]
+    = [0; 0; 1; 16; 128; 1; 17; 112; 0; 10; 0; 2; 104; 105].
+Proof.
+  cbv zeta. split; [|vm_compute; reflexivity].
+  assert (V : forall v, 0 <= v <= 100000 -> vwf v) by (intros v Hv; unfold vwf, maxVarInt8; lia).
+  constructor; [|constructor; [|constructor; [|constructor]]]; unfold item_ok; cbn [snd].
+  - split; [exact I|]. split; [eexists; reflexivity|]. repeat split; reflexivity.
+  - split; [apply V; lia|]. split; [eexists; reflexivity|]. repeat split; reflexivity.
+  - split.
+    + split; [apply V; lia|]. split; [apply V; lia|]. split; [vm_compute; discriminate|].
+      split; [vm_compute; discriminate|]. left. reflexivity.
+    + split; [eexists; reflexivity|]. repeat split; reflexivity.
+Qed.
+Print Assumptions C08_payload_nonvacuous.
+
+(* ==== end payload ==== *)
